@@ -71,7 +71,13 @@ def main():
                             "stderr_tail": r.stderr[-600:], "wall_s": round(time.time() - t0, 1)}
     finally:
         sh(["git", "-C", REPO, "checkout", "--", "."])
-    out = {"tier": tier, "ran_at": time.strftime("%Y-%m-%dT%H:%M:%S"), "results": results}
+    prev = {}
+    try:
+        prev = json.load(open(os.path.join(d, "result.json"))).get("results", {})
+    except Exception:
+        pass
+    prev.update(results)
+    out = {"tier": tier, "ran_at": time.strftime("%Y-%m-%dT%H:%M:%S"), "results": prev}
     with open(os.path.join(d, "result.json"), "w") as f:
         json.dump(out, f, indent=1)
         f.write("\n")
